@@ -22,7 +22,10 @@ def stopper : Tok → Bool
 treated separately -/
 def exprKws : List Nat :=
   [KW.TIME, KW.ZONE, KW.ANY, KW.ALL, KW.SOME, kwIndex "EXISTS", KW.COLLATE, KW.UNNEST, KW.AND, KW.ESCAPE, KW.TO,
-   KW.UNSIGNED, KW.NULL, KW.NOT, KW.TRUE, KW.FALSE, KW.UNKNOWN, KW.DISTINCT]
+   KW.UNSIGNED, KW.NULL, KW.NOT, KW.TRUE, KW.FALSE, KW.UNKNOWN, KW.DISTINCT,
+   -- tested by the query layer directly after a list element
+   kwIndex "AS", kwIndex "ASC", kwIndex "DESC", kwIndex "NULLS", kwIndex "ILIKE", kwIndex "EXCLUDE", kwIndex "REPLACE",
+   kwIndex "RENAME", kwIndex "GROUPING", kwIndex "CUBE", kwIndex "ROLLUP"]
 
 theorem reserved_facts : reservedForColumnAlias.all (fun k => kwClass k == .other && !exprKws.contains k) = true := by
   decide +kernel
@@ -196,6 +199,754 @@ theorem compoundTail_ext {x : Tok} (hx : stopper x = true) (r : List Tok) :
           · rename_i rest' heq; exact absurd heq (fun hh => not_period_head_ext hx _ r hnp _ hh)
           · rfl
       · simp at h
+      · simp at h
+
+theorem wordTail_stopper (c : Cfg) (t : Tok) (v : W) {x : Tok} (hx : stopper x = true) (r : List Tok) :
+    wordTail c t v (x :: r) = .ok (.atom .ident [t] (x :: r)) := by
+  rcases stopper_shape hx with ⟨s, rfl, hs⟩ | ⟨v', q, k, rfl, hk⟩
+  · rcases hs with rfl | rfl | rfl | rfl | rfl <;> simp [wordTail]
+  · simp [wordTail]
+
+theorem wordTail_ext (c : Cfg) (t : Tok) (v : W) {x : Tok} (hx : stopper x = true) (r rest : List Tok) (plan : PrefixPlan)
+    (h : wordTail c t v rest = .ok plan) : wordTail c t v (rest ++ x :: r) = .ok (plan.ext (x :: r)) := by
+  cases rest with
+  | nil =>
+    simp [wordTail] at h; subst h
+    simpa [PrefixPlan.ext] using wordTail_stopper c t v hx r
+  | cons a b =>
+    unfold wordTail at h ⊢
+    simp only [List.cons_append]
+    split at h
+    · simp at h
+    · rename_i rest' heq
+      simp at heq; obtain ⟨rfl, rfl⟩ := heq
+      simp only
+      split at h
+      · simp at h
+      · rename_i toks rest'' hc
+        have := compoundTail_ext hx r _ _ _ _ _ (Nat.le_refl _) hc
+        simp only [this]
+        have hl : x.isSym .LParen = false := stopper_isSym hx (by simp)
+        rw [peekSym_ext hl]
+        split at h
+        · simp at h
+        · rename_i hp
+          simp at h; subst h
+          simp [hp, PrefixPlan.ext]
+    · rename_i heq
+      simp at heq; obtain ⟨rfl, rfl⟩ := heq
+      simp only
+      split at h
+      · simp at h
+      · rename_i hl; simp at h; subst h; simp [hl, PrefixPlan.ext]
+    · rename_i heq
+      simp at heq; obtain ⟨rfl, rfl⟩ := heq
+      simp only
+      split at h
+      · simp at h
+      · rename_i hl; simp at h; subst h; simp [hl, PrefixPlan.ext]
+    · rename_i heq
+      simp at heq; obtain ⟨rfl, rfl⟩ := heq
+      simp only
+      split at h
+      · simp at h
+      · rename_i hl; simp at h; subst h; simp [hl, PrefixPlan.ext]
+    · rename_i heq
+      simp at heq; obtain ⟨rfl, rfl⟩ := heq
+      simp only
+      split at h
+      · simp at h
+      · rename_i hl; simp at h; subst h; simp [hl, PrefixPlan.ext]
+    · rename_i h1 h2 h3 h4 h5 h6
+      simp at h; subst h
+      split
+      · rename_i heq; simp at heq; exact (h1 b (by rw [heq.1])).elim
+      · rename_i heq; simp at heq; exact (h2 b (by rw [heq.1])).elim
+      · rename_i heq; simp at heq; exact (h3 b (by rw [heq.1])).elim
+      · rename_i heq; simp at heq; exact (h4 _ b (by rw [heq.1])).elim
+      · rename_i heq; simp at heq; exact (h5 _ b (by rw [heq.1])).elim
+      · rename_i heq; simp at heq; exact (h6 _ _ b (by rw [heq.1])).elim
+      · simp [PrefixPlan.ext]
+
+theorem lambdaAhead_ext {x : Tok} (hx : x.isSym .Arrow = false) (r : List Tok) :
+    ∀ ts : List Tok, (∃ t ∈ ts, t.isSym .RParen = true) → lambdaAhead (ts ++ x :: r) = lambdaAhead ts := by
+  intro ts
+  induction ts with
+  | nil => intro h; simp at h
+  | cons a b ih =>
+    intro h
+    by_cases ha : a.isSym .RParen = true
+    · cases b with
+      | nil => simp [lambdaAhead, List.dropWhile, ha, hx]
+      | cons t rest => simp [lambdaAhead, List.dropWhile, ha]
+    · have hb : ∃ t ∈ b, t.isSym .RParen = true := by
+        obtain ⟨t, ht, hr⟩ := h
+        simp at ht
+        rcases ht with rfl | ht
+        · exact absurd hr ha
+        · exact ⟨t, ht, hr⟩
+      have := ih hb
+      simp only [lambdaAhead, List.cons_append, List.dropWhile, ha] at this ⊢
+      simpa using this
+
+theorem subQueryAhead_ext (t : Tok) (rest s : List Tok) : subQueryAhead ((t :: rest) ++ s) = subQueryAhead (t :: rest) := by
+  simp [subQueryAhead, peekKw]
+
+theorem prefixHead_ext (c : Cfg) {x : Tok} (hx : stopper x = true) (r ts : List Tok) (plan : PrefixPlan)
+    (h : prefixHead c ts = .ok plan)
+    (hp : ∀ rest, plan = .paren rest → ∃ t ∈ rest, t.isSym .RParen = true) :
+    prefixHead c (ts ++ x :: r) = .ok (plan.ext (x :: r)) := by
+  have hE : ∀ rest, peekKw (rest ++ x :: r) (kwIndex "EXISTS") = peekKw rest (kwIndex "EXISTS") :=
+    fun rest => peekKw_ext hx (by simp [exprKws]) rest r
+  cases ts with
+  | nil => simp [prefixHead] at h
+  | cons t rest =>
+    simp only [List.cons_append]
+    unfold prefixHead at h ⊢
+    simp only at h ⊢
+    repeat' split at h
+    all_goals try (first
+      | (simp at h; done)
+      | (simp at h; subst h; simp_all [PrefixPlan.ext]; done)
+      | (have := wordTail_ext c _ _ hx r _ _ h; simp_all; done))
+    -- `(`: a parenthesised expression; the look-aheads see the same tokens
+    rename_i hs hl
+    simp at h; subst h
+    obtain ⟨t0, ht0, hr0⟩ := hp rest rfl
+    have hA : x.isSym .Arrow = false := stopper_isSym hx (by simp)
+    have h1 : lambdaAhead (rest ++ x :: r) = lambdaAhead rest := lambdaAhead_ext hA r rest ⟨t0, ht0, hr0⟩
+    have h2 : subQueryAhead (rest ++ x :: r) = subQueryAhead rest := by
+      cases rest with
+      | nil => simp at ht0
+      | cons a b => exact subQueryAhead_ext a b _
+    simp [h1, h2, hs, hl, PrefixPlan.ext]
+
+theorem collateCheck_ext {x : Tok} (hx : stopper x = true) (r : List Tok) {e e' : Expr} {rest rest' : List Tok}
+    (h : collateCheck e rest = .ok (e', rest')) : collateCheck e (rest ++ x :: r) = .ok (e', rest' ++ x :: r) := by
+  unfold collateCheck at h ⊢
+  rw [peekKw_ext hx (by simp [exprKws])]
+  split at h
+  · simp at h
+  · rename_i hc; simp at h; obtain ⟨rfl, rfl⟩ := h; simp [hc]
+
+theorem eatKws_ext (ks : List Nat) : ∀ {ts ops rest : List Tok}, eatKws ts ks = some (ops, rest) →
+    ∀ s, eatKws (ts ++ s) ks = some (ops, rest ++ s) := by
+  induction ks with
+  | nil => intro ts ops rest h s; simp [eatKws] at h ⊢; obtain ⟨rfl, rfl⟩ := h; simp
+  | cons k ks ih =>
+    intro ts ops rest h s
+    unfold eatKws at h ⊢
+    split at h
+    · simp at h
+    · rename_i t r hk
+      rw [eatKw_ext hk]
+      simp only
+      split at h
+      · simp at h
+      · rename_i ops' rest' hr
+        simp at h; obtain ⟨rfl, rfl⟩ := h
+        simp [ih hr]
+
+theorem eatKws_ext_none {x : Tok} (hx : stopper x = true) (r : List Tok) (ks : List Nat) (hks : ∀ k ∈ ks, k ∈ exprKws) :
+    ∀ {ts : List Tok}, ks ≠ [] → eatKws ts ks = none → eatKws (ts ++ x :: r) ks = none := by
+  induction ks with
+  | nil => intro ts hne; exact absurd rfl hne
+  | cons k ks ih =>
+    intro ts _ h
+    unfold eatKws at h ⊢
+    split at h
+    · rename_i hk
+      rw [eatKw_ext_none hx (hks k (by simp)) hk]
+    · rename_i t rest hk
+      rw [eatKw_ext hk]
+      simp only
+      split at h
+      · rename_i hr
+        cases ks with
+        | nil => simp [eatKws] at hr
+        | cons k2 ks2 =>
+          rw [ih (fun k hk => hks k (by simp [hk])) (by simp) hr]
+      · simp at h
+
+def IsPlan.ext (s : List Tok) : IsPlan → IsPlan
+  | .post k ops rest => .post k ops (rest ++ s)
+  | .distinct neg ops rest => .distinct neg ops (rest ++ s)
+
+theorem isKw_ne {t : Tok} {a b : Nat} (h : t.isKw a = true) (hab : (a == b) = false) : t.isKw b = false := by
+  unfold Tok.isKw at h ⊢
+  split at h <;> simp_all
+
+theorem not_ne_distinct : (KW.NOT == KW.DISTINCT) = false := by decide +kernel
+
+theorem isTail_ext {x : Tok} (hx : stopper x = true) (r : List Tok) {ts : List Tok} {p : IsPlan}
+    (h : isTail ts = some p) : isTail (ts ++ x :: r) = some (p.ext (x :: r)) := by
+  have n1 := @eatKws_ext_none x hx r [KW.NULL] (by simp [exprKws]) ts (by simp)
+  have n2 := @eatKws_ext_none x hx r [KW.NOT, KW.NULL] (by simp [exprKws]) ts (by simp)
+  have n3 := @eatKws_ext_none x hx r [KW.TRUE] (by simp [exprKws]) ts (by simp)
+  have n4 := @eatKws_ext_none x hx r [KW.NOT, KW.TRUE] (by simp [exprKws]) ts (by simp)
+  have n5 := @eatKws_ext_none x hx r [KW.FALSE] (by simp [exprKws]) ts (by simp)
+  have n6 := @eatKws_ext_none x hx r [KW.NOT, KW.FALSE] (by simp [exprKws]) ts (by simp)
+  have n7 := @eatKws_ext_none x hx r [KW.UNKNOWN] (by simp [exprKws]) ts (by simp)
+  have n8 := @eatKws_ext_none x hx r [KW.NOT, KW.UNKNOWN] (by simp [exprKws]) ts (by simp)
+  unfold isTail at h ⊢
+  split at h
+  · rename_i ops r' hk; simp at h; subst h; simp [eatKws_ext _ hk, IsPlan.ext]
+  rename_i h1; rw [n1 h1]; simp only
+  split at h
+  · rename_i ops r' hk; simp at h; subst h; simp [eatKws_ext _ hk, IsPlan.ext]
+  rename_i h2; rw [n2 h2]; simp only
+  split at h
+  · rename_i ops r' hk; simp at h; subst h; simp [eatKws_ext _ hk, IsPlan.ext]
+  rename_i h3; rw [n3 h3]; simp only
+  split at h
+  · rename_i ops r' hk; simp at h; subst h; simp [eatKws_ext _ hk, IsPlan.ext]
+  rename_i h4; rw [n4 h4]; simp only
+  split at h
+  · rename_i ops r' hk; simp at h; subst h; simp [eatKws_ext _ hk, IsPlan.ext]
+  rename_i h5; rw [n5 h5]; simp only
+  split at h
+  · rename_i ops r' hk; simp at h; subst h; simp [eatKws_ext _ hk, IsPlan.ext]
+  rename_i h6; rw [n6 h6]; simp only
+  split at h
+  · rename_i ops r' hk; simp at h; subst h; simp [eatKws_ext _ hk, IsPlan.ext]
+  rename_i h7; rw [n7 h7]; simp only
+  split at h
+  · rename_i ops r' hk; simp at h; subst h; simp [eatKws_ext _ hk, IsPlan.ext]
+  rename_i h8; rw [n8 h8]; simp only
+  split at h
+  · rename_i ops r' hk; simp at h; subst h; simp [eatKws_ext _ hk, IsPlan.ext]
+  rename_i h9
+  split at h
+  · rename_i ops r' hk
+    simp at h; subst h
+    -- the first token is NOT, so `DISTINCT FROM` still fails on the extended list
+    have h9' : eatKws (ts ++ x :: r) [KW.DISTINCT, KW.FROM] = none := by
+      unfold eatKws at hk
+      split at hk
+      · simp at hk
+      · rename_i t rest hkn
+        obtain ⟨rfl, hn⟩ := (eatKw_some_iff _ _ _ _).1 hkn
+        simp [eatKws, eatKw, isKw_ne hn not_ne_distinct]
+    simp [h9', eatKws_ext _ hk, IsPlan.ext]
+  · simp at h
+
+def InfixPlan.ext (s : List Tok) : InfixPlan → InfixPlan
+  | .right k ops rest p => .right k ops (rest ++ s) p
+  | .post k ops rest => .post k ops (rest ++ s)
+  | .like k neg any ops rest => .like k neg any ops (rest ++ s)
+  | .between neg ops rest => .between neg ops (rest ++ s)
+  | .inl neg ops rest => .inl neg ops (rest ++ s)
+  | .quant o qk ops rest p => .quant o qk ops (rest ++ s) p
+
+/-- plans whose operand list opens with `(`: the look-ahead for a sub-query needs a token there -/
+def InfixPlan.NeedsRest : InfixPlan → Prop
+  | .inl _ _ rest => rest ≠ []
+  | .quant _ _ _ rest _ => rest ≠ []
+  | _ => True
+
+theorem subQueryAhead_ne (rest s : List Tok) (h : rest ≠ []) : subQueryAhead (rest ++ s) = subQueryAhead rest := by
+  cases rest with
+  | nil => exact absurd rfl h
+  | cons a b => exact subQueryAhead_ext a b s
+
+theorem notFamilyTail_ext (c : Cfg) {x : Tok} (hx : stopper x = true) (r : List Tok) (neg : Bool) (pre ts : List Tok)
+    (plan : InfixPlan) (h : notFamilyTail c neg pre ts = .ok plan) (hn : plan.NeedsRest) :
+    notFamilyTail c neg pre (ts ++ x :: r) = .ok (plan.ext (x :: r)) := by
+  have hU : ∀ rest, peekKw (rest ++ x :: r) KW.UNNEST = peekKw rest KW.UNNEST :=
+    fun rest => peekKw_ext hx (by simp [exprKws]) rest r
+  have hkc := stopper_kwc hx
+  cases ts with
+  | nil => simp [notFamilyTail] at h
+  | cons t1 r1 =>
+    simp only [List.cons_append]
+    unfold notFamilyTail at h ⊢
+    simp only at h ⊢
+    split at h
+    · -- regexp
+      rename_i hk
+      split at h
+      · simp at h; subst h; simp [hkc, InfixPlan.ext]
+      · rename_i t2 r2
+        split at h <;> (rename_i h2; simp at h; subst h; simp [h2, InfixPlan.ext])
+    · simp at h; subst h; simp [InfixPlan.ext]
+    · -- in
+      rename_i hk
+      simp only [hU]
+      split at h
+      · simp at h
+      · rename_i hu
+        split at h
+        · rename_i r2
+          split at h
+          · simp at h
+          · rename_i hs
+            simp at h; subst h
+            simp only [InfixPlan.NeedsRest] at hn
+            simp [hu, subQueryAhead_ne _ _ hn, hs, InfixPlan.ext]
+        · simp at h
+    · simp at h; subst h; simp [InfixPlan.ext]
+    · -- like
+      rename_i hk
+      split at h
+      · rename_i t2 r2 ha; simp at h; subst h; simp [eatKw_ext ha, InfixPlan.ext]
+      · rename_i ha; simp at h; subst h
+        simp [eatKw_ext_none hx (by simp [exprKws]) ha, InfixPlan.ext]
+    · -- ilike
+      rename_i hk
+      split at h
+      · rename_i t2 r2 ha; simp at h; subst h; simp [eatKw_ext ha, InfixPlan.ext]
+      · rename_i ha; simp at h; subst h
+        simp [eatKw_ext_none hx (by simp [exprKws]) ha, InfixPlan.ext]
+    · -- similar
+      rename_i hk
+      split at h
+      · rename_i t2 r2 ha; simp at h; subst h; simp [eatKw_ext ha, InfixPlan.ext]
+      · simp at h
+    · simp at h
+
+theorem typeContinues_ext {x : Tok} (hx : stopper x = true) (ts r : List Tok) :
+    typeContinues (ts ++ x :: r) = typeContinues ts := by
+  have h1 : x.isSym .LParen = false := stopper_isSym hx (by simp)
+  have h2 : x.isSym .LBracket = false := stopper_isSym hx (by simp)
+  simp [typeContinues, peekSym_ext h1, peekSym_ext h2, peekKw_ext hx (show KW.UNSIGNED ∈ exprKws by simp [exprKws])]
+
+theorem escapeTail_ext (c : Cfg) {x : Tok} (hx : stopper x = true) (r ts : List Tok) :
+    (escapeTail c ts = .ok none → escapeTail c (ts ++ x :: r) = .ok none) ∧
+    (∀ esc rest, escapeTail c ts = .ok (some (esc, rest)) → escapeTail c (ts ++ x :: r) = .ok (some (esc, rest ++ x :: r))) := by
+  constructor
+  · intro h
+    unfold escapeTail at h ⊢
+    split at h
+    · rename_i hk; rw [eatKw_ext_none hx (by simp [exprKws]) hk]
+    · rename_i t1 r1 hk
+      repeat' split at h
+      all_goals simp at h
+  · intro esc rest h
+    unfold escapeTail at h ⊢
+    split at h
+    · simp at h
+    · rename_i t1 r1 hk
+      rw [eatKw_ext hk]
+      simp only
+      repeat' split at h
+      all_goals first
+        | (simp at h; done)
+        | (simp at h; obtain ⟨rfl, rfl⟩ := h; simp)
+
+theorem infixHead_ext (c : Cfg) {x : Tok} (hx : stopper x = true) (r : List Tok) (d q : Nat) (ts : List Tok)
+    (plan : InfixPlan) (h : infixHead c d q ts = .ok plan) (hn : plan.NeedsRest) :
+    infixHead c d q (ts ++ x :: r) = .ok (plan.ext (x :: r)) := by
+  have hANY : x.isKw KW.ANY = false := stopper_isKw hx (by simp [exprKws])
+  have hALL : x.isKw KW.ALL = false := stopper_isKw hx (by simp [exprKws])
+  have hSOME : x.isKw KW.SOME = false := stopper_isKw hx (by simp [exprKws])
+  cases ts with
+  | nil => simp [infixHead] at h
+  | cons t rest =>
+    simp only [List.cons_append]
+    unfold infixHead at h ⊢
+    simp only at h ⊢
+    split at h
+    · simp at h; subst h; simp_all [InfixPlan.ext]
+    · rename_i hmy
+      simp only [hmy]
+      split at h
+      · simp at h
+      · -- regular binary operator
+        rename_i o ho
+        split at h
+        · simp at h; subst h; simp [hANY, hALL, hSOME, InfixPlan.ext]
+        · rename_i t2 rest2
+          simp only [List.cons_append]
+          split at h
+          · rename_i hq
+            simp only [hq, if_true]
+            split at h
+            · rename_i rest3
+              simp only [List.cons_append]
+              split at h
+              · simp at h
+              · rename_i hs
+                simp at h; subst h
+                simp only [InfixPlan.NeedsRest] at hn
+                simp [subQueryAhead_ne _ _ hn, hs, InfixPlan.ext]
+            · rename_i hnl
+              simp at h
+          · rename_i hq
+            simp at h; subst h
+            simp [hq, InfixPlan.ext]
+      · -- not a regular operator
+        rename_i hb
+        split at h
+        · -- word
+          split at h
+          · -- IS
+            split at h
+            · rename_i ik ops rest' hi
+              simp at h; subst h
+              simp [isTail_ext hx r hi, IsPlan.ext, InfixPlan.ext]
+            · rename_i neg ops rest' hi
+              simp at h; subst h
+              simp [isTail_ext hx r hi, IsPlan.ext, InfixPlan.ext]
+            · simp at h
+          · -- AT
+            repeat' split at h
+            all_goals first
+              | (simp at h; done)
+              | (simp at h; subst h; simp_all [InfixPlan.ext])
+          · -- NOT
+            have := notFamilyTail_ext c hx r _ _ _ _ h hn
+            simpa using this
+          · have := notFamilyTail_ext c hx r _ _ _ _ h hn
+            simpa using this
+          · have := notFamilyTail_ext c hx r _ _ _ _ h hn
+            simpa using this
+          · have := notFamilyTail_ext c hx r _ _ _ _ h hn
+            simpa using this
+          · have := notFamilyTail_ext c hx r _ _ _ _ h hn
+            simpa using this
+          · have := notFamilyTail_ext c hx r _ _ _ _ h hn
+            simpa using this
+          · have := notFamilyTail_ext c hx r _ _ _ _ h hn
+            simpa using this
+          · have := notFamilyTail_ext c hx r _ _ _ _ h hn
+            simpa using this
+          · simp at h
+        · -- ::
+          split at h
+          · simp at h
+          · rename_i hd
+            simp only [hd, if_false]
+            split at h
+            · simp at h
+            · rename_i ty rest2
+              simp only [List.cons_append]
+              split at h
+              · rename_i k
+                split at h
+                · rename_i hc
+                  simp at h; subst h
+                  simp at hc
+                  simp [typeContinues_ext hx, hc, InfixPlan.ext]
+                · simp at h
+              all_goals simp at h
+        · simp at h; subst h; simp [InfixPlan.ext]
+        all_goals (try (repeat' split at h)) <;> simp at h
+
+theorem parseSubexpr_ne_nil (c : Cfg) (f d p : Nat) (ts : List Tok) (e : Expr) (rest : List Tok)
+    (h : parseSubexpr c f d p ts = .ok (e, rest)) : ts ≠ [] := by
+  intro hts; subst hts
+  cases f with
+  | zero => simp [parseSubexpr] at h
+  | succ f =>
+    cases d with
+    | zero => simp [parseSubexpr] at h
+    | succ d =>
+      simp only [parseSubexpr] at h
+      cases f with
+      | zero => simp [parsePrefix] at h
+      | succ f =>
+        simp only [parsePrefix] at h
+        split at h
+        · simp at h
+        · rename_i heq
+          split at heq
+          · simp at heq
+          · simp [prefixHead] at heq
+
+theorem parseItems_ne_nil (c : Cfg) (f d : Nat) (ts : List Tok) (e : Expr) (rest : List Tok)
+    (h : parseItems c f d ts = .ok (e, rest)) : ts ≠ [] := by
+  cases f with
+  | zero => simp [parseItems] at h
+  | succ f =>
+    simp only [parseItems] at h
+    split at h
+    · simp at h
+    · rename_i e1 r1 hs; exact parseSubexpr_ne_nil _ _ _ _ _ _ _ hs
+
+theorem listEndAhead_ne (rest s : List Tok) (h : rest ≠ []) : listEndAhead (rest ++ s) = listEndAhead rest := by
+  cases rest with
+  | nil => exact absurd rfl h
+  | cons a b => simp [listEndAhead]
+
+theorem peekSym_ne (rest s : List Tok) (sy : Sym) (h : rest ≠ []) : peekSym (rest ++ s) sy = peekSym rest sy := by
+  cases rest with
+  | nil => exact absurd rfl h
+  | cons a b => simp [peekSym]
+
+theorem ext_all (c : Cfg) {x : Tok} (hx : stopper x = true) (r : List Tok) (f : Nat) :
+    (∀ d p ts e rest, parseSubexpr c f d p ts = .ok (e, rest) →
+      parseSubexpr c f d p (ts ++ x :: r) = .ok (e, rest ++ x :: r)) ∧
+    (∀ d p e0 ts e rest, loop c f d p e0 ts = .ok (e, rest) →
+      loop c f d p e0 (ts ++ x :: r) = .ok (e, rest ++ x :: r)) ∧
+    (∀ d ts e rest, parsePrefix c f d ts = .ok (e, rest) →
+      parsePrefix c f d (ts ++ x :: r) = .ok (e, rest ++ x :: r)) ∧
+    (∀ d e0 q ts e rest, parseInfix c f d e0 q ts = .ok (e, rest) →
+      parseInfix c f d e0 q (ts ++ x :: r) = .ok (e, rest ++ x :: r)) ∧
+    (∀ d ts e rest, parseItems c f d ts = .ok (e, rest) → rest ≠ [] →
+      parseItems c f d (ts ++ x :: r) = .ok (e, rest ++ x :: r)) := by
+  induction f with
+  | zero => simp [parseSubexpr, loop, parsePrefix, parseInfix, parseItems]
+  | succ f ih =>
+    obtain ⟨ihS, ihL, ihP, ihI, ihT⟩ := ih
+    refine ⟨?_, ?_, ?_, ?_, ?_⟩
+    · -- parseSubexpr
+      intro d p ts e rest h
+      cases d with
+      | zero => simp [parseSubexpr] at h
+      | succ d =>
+        simp only [parseSubexpr] at h ⊢
+        split at h
+        · simp at h
+        · rename_i e0 ts' hp
+          rw [ihP _ _ _ _ hp]
+          exact ihL _ _ _ _ _ _ h
+    · -- loop
+      intro d p e0 ts e rest h
+      simp only [loop] at h ⊢
+      rw [nextPrec_ext c hx]
+      split at h
+      · rename_i hge
+        simp at h; obtain ⟨rfl, rfl⟩ := h
+        simp [hge]
+      · rename_i hlt
+        simp only [hlt, if_false]
+        split at h
+        · simp at h
+        · rename_i e1 ts1 hi
+          rw [ihI _ _ _ _ _ _ hi]
+          exact ihL _ _ _ _ _ _ h
+    · -- parsePrefix
+      intro d ts e rest h
+      simp only [parsePrefix] at h ⊢
+      split at h
+      · simp at h
+      · rename_i hd
+        simp only [hd, if_false]
+        split at h
+        · simp at h
+        · rename_i k toks r0 hh
+          rw [prefixHead_ext c hx r _ _ hh (by intro _ hc; cases hc)]
+          simp only [PrefixPlan.ext]
+          exact collateCheck_ext hx r h
+        · rename_i o t p r0 hh
+          rw [prefixHead_ext c hx r _ _ hh (by intro _ hc; cases hc)]
+          simp only [PrefixPlan.ext]
+          split at h
+          · simp at h
+          · rename_i e1 r1 hs
+            rw [ihS _ _ _ _ _ hs]
+            exact collateCheck_ext hx r h
+        · rename_i r0 hh
+          split at h
+          · simp at h
+          · rename_i e1 r1 hs
+            have hy := (yield_all c f).1 _ _ _ _ _ hs
+            split at h
+            · simp at h
+            · rename_i r2
+              have hpar : ∃ t ∈ r0, t.isSym .RParen = true := by
+                rw [hy]; exact ⟨.sym .RParen, by simp, by simp [Tok.isSym]⟩
+              rw [prefixHead_ext c hx r _ _ hh (by intro rr hc; cases hc; exact hpar)]
+              simp only [PrefixPlan.ext]
+              rw [ihS _ _ _ _ _ hs]
+              simp only [List.cons_append]
+              have hper : x.isSym .Period = false := stopper_isSym hx (by simp)
+              rw [peekSym_ext hper]
+              split at h
+              · simp at h
+              · rename_i hnp
+                simp only [hnp]
+                exact collateCheck_ext hx r h
+            · simp at h
+    · -- parseInfix
+      intro d e0 q ts e rest h
+      simp only [parseInfix] at h ⊢
+      split at h
+      · simp at h
+      · -- right
+        rename_i k ops r0 p hh
+        rw [infixHead_ext c hx r _ _ _ _ hh trivial]
+        simp only [InfixPlan.ext]
+        split at h
+        · simp at h
+        · rename_i r1 rest' hs
+          rw [ihS _ _ _ _ _ hs]
+          simp at h; obtain ⟨rfl, rfl⟩ := h; rfl
+      · -- post
+        rename_i k ops r0 hh
+        rw [infixHead_ext c hx r _ _ _ _ hh trivial]
+        simp only [InfixPlan.ext]
+        simp at h; obtain ⟨rfl, rfl⟩ := h; rfl
+      · -- like
+        rename_i k neg any ops r0 hh
+        rw [infixHead_ext c hx r _ _ _ _ hh trivial]
+        simp only [InfixPlan.ext]
+        split at h
+        · simp at h
+        · rename_i pat rest' hs
+          rw [ihS _ _ _ _ _ hs]
+          simp only
+          split at h
+          · simp at h
+          · rename_i he
+            rw [(escapeTail_ext c hx r _).1 he]
+            simp at h; obtain ⟨rfl, rfl⟩ := h; rfl
+          · rename_i esc rest'' he
+            rw [(escapeTail_ext c hx r _).2 _ _ he]
+            simp at h; obtain ⟨rfl, rfl⟩ := h; rfl
+      · -- between
+        rename_i neg ops r0 hh
+        rw [infixHead_ext c hx r _ _ _ _ hh trivial]
+        simp only [InfixPlan.ext]
+        split at h
+        · simp at h
+        · rename_i lo rest' hs
+          rw [ihS _ _ _ _ _ hs]
+          simp only
+          split at h
+          · simp at h
+          · rename_i andTok rest'' ha
+            rw [eatKw_ext ha]
+            simp only
+            split at h
+            · simp at h
+            · rename_i hi rest3 hs2
+              rw [ihS _ _ _ _ _ hs2]
+              simp at h; obtain ⟨rfl, rfl⟩ := h; rfl
+      · -- inl
+        rename_i neg ops r0 hh
+        have hne : r0 ≠ [] := by
+          intro h0; subst h0
+          split at h
+          · simp at h
+          · split at h
+            · rename_i heq; simp at heq
+            · split at h
+              · simp at h
+              · rename_i items rest' ht; exact parseItems_ne_nil _ _ _ _ _ _ ht rfl
+        rw [infixHead_ext c hx r _ _ _ _ hh hne]
+        simp only [InfixPlan.ext]
+        rw [peekSym_ne _ _ _ hne]
+        split at h
+        · simp at h
+        · rename_i hc
+          simp only [hc]
+          split at h
+          · rename_i heq
+            simp at h; obtain ⟨rfl, rfl⟩ := h
+            simp [heq]
+          · rename_i hnot
+            split at h
+            · simp at h
+            · rename_i items rest' ht
+              split at h
+              · rename_i rest''
+                simp at h; obtain ⟨rfl, rfl⟩ := h
+                have hT := ihT _ _ _ _ ht (by simp)
+                simp only [Bool.false_eq_true, if_false]
+                obtain ⟨a, b, hab⟩ := List.exists_cons_of_ne_nil hne
+                subst hab
+                split
+                · rename_i rest3 heq1 heq2
+                  simp at heq2
+                  exact (hnot _ heq1 (by rw [heq2.1])).elim
+                · rw [hT]; simp
+              · simp at h
+      · -- quant
+        rename_i o qk ops r0 p hh
+        have hne : r0 ≠ [] := by
+          intro h0; subst h0
+          split at h
+          · simp at h
+          · rename_i r1 rest' hs; exact parseSubexpr_ne_nil _ _ _ _ _ _ _ hs rfl
+        rw [infixHead_ext c hx r _ _ _ _ hh hne]
+        simp only [InfixPlan.ext]
+        split at h
+        · simp at h
+        · rename_i r1 rest' hs
+          rw [ihS _ _ _ _ _ hs]
+          simp only
+          split at h
+          · rename_i rest''
+            simp only [List.cons_append]
+            split at h
+            · rename_i ho
+              simp at h; obtain ⟨rfl, rfl⟩ := h
+              simp [ho]
+            · simp at h
+          · simp at h
+    · -- parseItems
+      intro d ts e rest h hrest
+      simp only [parseItems] at h ⊢
+      split at h
+      · simp at h
+      · rename_i e1 r1 hs
+        rw [ihS _ _ _ _ _ hs]
+        simp only
+        split at h
+        · rename_i rest'
+          simp only [List.cons_append]
+          split at h
+          · simp at h
+          · rename_i hc
+            split at h
+            · simp at h
+            · rename_i items rest'' ht
+              simp at h; obtain ⟨rfl, rfl⟩ := h
+              have hne : rest' ≠ [] := parseItems_ne_nil _ _ _ _ _ _ ht
+              rw [listEndAhead_ne _ _ hne]
+              simp only [hc]
+              rw [ihT _ _ _ _ ht hrest]
+              simp
+        · rename_i hnc
+          simp at h; obtain ⟨rfl, rfl⟩ := h
+          cases r1 with
+          | nil => exact absurd rfl hrest
+          | cons a b =>
+            simp only [List.cons_append]
+            split
+            · rename_i rest3 heq; simp at heq; exact (hnc b (by rw [heq.1])).elim
+            · rfl
+
+/-- **Extension theorem** for `parse_subexpr`: a successful run is reproduced in front of any
+stopper token -/
+theorem parseSubexpr_ext (c : Cfg) {x : Tok} (hx : stopper x = true) (r : List Tok) (f d p : Nat) (ts : List Tok)
+    (e : Expr) (rest : List Tok) (h : parseSubexpr c f d p ts = .ok (e, rest)) :
+    parseSubexpr c f d p (ts ++ x :: r) = .ok (e, rest ++ x :: r) :=
+  (ext_all c hx r f).1 _ _ _ _ _ h
+
+-- versions of the basic lemmas that take the keyword fact directly (used with `;`, which is no keyword at all)
+theorem eatKw_none' {x : Tok} {k : Nat} (hk : x.isKw k = false) {ts : List Tok} (h : eatKw ts k = none) (r : List Tok) :
+    eatKw (ts ++ x :: r) k = none := by
+  cases ts with
+  | nil => simp [eatKw, hk]
+  | cons t rest => simpa [eatKw] using h
+
+theorem peekKw_ext' {x : Tok} {k : Nat} (hk : x.isKw k = false) (ts r : List Tok) :
+    peekKw (ts ++ x :: r) k = peekKw ts k := by
+  cases ts with
+  | nil => simp [peekKw, hk]
+  | cons t rest => simp [peekKw]
+
+theorem eatKws_none' {x : Tok} (r : List Tok) (ks : List Nat) (hks : ∀ k ∈ ks, x.isKw k = false) :
+    ∀ {ts : List Tok}, ks ≠ [] → eatKws ts ks = none → eatKws (ts ++ x :: r) ks = none := by
+  induction ks with
+  | nil => intro ts hne; exact absurd rfl hne
+  | cons k ks ih =>
+    intro ts _ h
+    unfold eatKws at h ⊢
+    split at h
+    · rename_i hk
+      rw [eatKw_none' (hks k (by simp)) hk]
+    · rename_i t rest hk
+      rw [eatKw_ext hk]
+      simp only
+      split at h
+      · rename_i hr
+        cases ks with
+        | nil => simp [eatKws] at hr
+        | cons k2 ks2 =>
+          rw [ih (fun k hk => hks k (by simp [hk])) (by simp) hr]
       · simp at h
 
 end SqlVerif.Pratt
